@@ -166,6 +166,13 @@ def matches(obs, expected):
         if isinstance(want, (list, tuple)):
             return got.split() == [str(x) for x in want]
         return got == str(want)
+    if k == 'within1':
+        if obs['kind'] != 'value':
+            return False
+        try:
+            return abs(int(obs['detail']) - int(expected[1])) <= 1
+        except ValueError:
+            return False
     if k in ('trap', 'throw'):
         return obs['kind'] == k and expected[1] in obs['detail']
     if k == 'defined':    # any value or sanctioned signal, but no crash/UB/hang
